@@ -223,13 +223,27 @@ def gen_plan(rng, base: Case, cid):
         x = rng.random()
         if x < 0.45 and inst:
             t = rng.choice(inst)
-            if rng.random() < 0.25:
+            y = rng.random()
+            if y < 0.2:
                 t = t + rng.choice([0.125, -0.125, 0.3])
+            elif y < 0.45:
+                t = round(rng.uniform(0, max(inst) + 1), 2)       # non-dyadic stop instants: now + (t - now) != t territory
             plan.append(('T', float(t)))
         elif x < 0.75:
             plan.append(('E', rng.randrange(nslots)))
         else:
             plan.append(('S', rng.randint(1, 7)))
+    if rng.random() < 0.5:
+        # stops in increasing order, so that most of them are accepted (t > now)
+        ts = sorted(s_[1] for s_ in plan if s_[0] == 'T')
+        it = iter(ts)
+        plan = [('T', next(it)) if s_[0] == 'T' else s_ for s_ in plan]
+    # target until-events that fail: slots that some program fails, and processes that raise
+    failing = [ins[1] for p in base.progs for ins in p if ins[0] == 'fail'] + \
+              [ins[1] for p in base.progs for ins in p if ins[0] == 'spawn' and ins[2] < len(base.progs)
+               and any(i2[0] == 'raise' for i2 in base.progs[ins[2]])]
+    if failing and rng.random() < 0.35:
+        plan.insert(rng.randrange(len(plan) + 1), ('E', rng.choice(failing)))
     c.plan = plan
     return c
 
